@@ -108,6 +108,7 @@ def verify_structure(chk):
         (r'^parse_etag$|cup_ecdsa::parse_etag$', 'parse_etag'),
         (r'as Cupv2Verifier>::verify_response_with_signature$', 'verify_response_with_signature'),
         (r'as (signature::)?Signature>::from_bytes$', 'DerSignature::from_bytes'),
+        (r'<impl \[.*\]>::(starts_with|ends_with|contains)(::<.*>)?$|<impl str>::(starts_with|ends_with|contains)(::<.*>)?$', 'partial-compare'),
     ]
     for rx, nm in cuts:
         if nm:
